@@ -68,6 +68,7 @@ var w struct {
 	users [2]userRec
 	kh    [3]map[string]string // per server: known-hosts state -> path
 	cfg   string
+	tmp   string               // private TMPDIR of the worker
 	cfgs  map[string]string    // hostile ssh config files by kind
 	homes [3]map[string]string // per server: state of $HOME/.ssh/known_hosts -> home directory
 	seq   int
@@ -87,6 +88,12 @@ func setup() error {
 		return err
 	}
 	os.MkdirAll(os.Getenv("HOME"), 0o700)
+	// a private, SHORT temp dir per worker (unix socket paths are limited to ~104 bytes): whatever the
+	// library leaves in os.TempDir() - e.g. ssh control sockets - is ours alone and removed at teardown
+	if t, err := os.MkdirTemp("", "c14-"); err == nil {
+		w.tmp = t
+		os.Setenv("TMPDIR", t)
+	}
 	os.Unsetenv("SSH_AUTH_SOCK")
 	os.Unsetenv("SSH_ASKPASS")
 	os.Unsetenv("DISPLAY")
@@ -381,6 +388,9 @@ func teardown() {
 		}
 	}
 	sshsim.ReapAll()
+	if w.tmp != "" && strings.HasPrefix(filepath.Base(w.tmp), "c14-") {
+		os.RemoveAll(w.tmp)
+	}
 	if os.Getenv("C14_DIR") == "" {
 		os.RemoveAll(w.dir)
 	}
@@ -1187,6 +1197,32 @@ func gen(tier string, seed int64) []mon.Case {
 			}
 		}
 	}
+	// connections attempted while another one to the same server and user is open; host-key rotation
+	// between opens of one transport object
+	for rep := 0; rep < reps; rep++ {
+		k := 0
+		for _, tr := range []string{"system", "standard"} {
+			for _, strictA := range []bool{true, false} {
+				for srv := 0; srv < 2; srv++ {
+					c := Cell{Kind: "concurrent", Transport: tr, Strict: strictA, KH: "has", Auth: "password", User: (k + rep) % 2, Srv: srv, Rep: rep, ReadSize: 8192}
+					cs = append(cs, mon.MkCase(fmt.Sprintf("c14/r%d/cc%02d-concurrent.%s.A-strict=%v.srv%d", rep, k, tr, strictA, srv), c))
+					k++
+				}
+			}
+		}
+		for _, tr := range []string{"standard", "system"} {
+			for _, reuse := range []bool{true, false} {
+				for _, kh := range []string{"none", "has", "other", "empty"} {
+					c := Cell{Kind: "rotate", Transport: tr, Strict: false, KH: kh, Auth: "key", User: (k + rep) % 2, Rep: rep, ReadSize: 8192, Reuse: reuse}
+					cs = append(cs, mon.MkCase(fmt.Sprintf("c14/r%d/ro%02d-rotate.%s.nostrict.kh=%s.reuse=%v", rep, k, tr, kh, reuse), c))
+					k++
+				}
+				c := Cell{Kind: "rotate", Transport: tr, Strict: true, KH: "has", Auth: "key", User: (k + rep) % 2, Rep: rep, ReadSize: 8192, Reuse: reuse}
+				cs = append(cs, mon.MkCase(fmt.Sprintf("c14/r%d/ro%02d-rotate.%s.strict.kh=has.reuse=%v", rep, k, tr, reuse), c))
+				k++
+			}
+		}
+	}
 	// retry on ONE object after an Open that failed inside Transport.Open
 	for rep := 0; rep < reps; rep++ {
 		k := 0
@@ -1246,7 +1282,9 @@ func init() {
 			"configured must survive; 16 port-22 decoy cells (config file names a port of one of our servers: nothing may connect there); 64 cells with the host given as the NAME localhost x known-hosts " +
 			"entry sets {name: right|wrong|none|hashed} x {ip: right|wrong|none|hashed} on both transports (connect iff the entry for the configured NAME matches). Plus 26 cells per repetition with no known-hosts file configured while $HOME/.ssh/known_hosts (temp HOME) holds the server key / another key / does not exist (must fail, " +
 			"standard with the bad-option error), and 12 cells whose device prints post-login notice lines containing the word password and ending in ':' and pauses 50-300 ms before its prompt; in every connecting " +
-			"cell the bytes arriving on the session's stdin must not contain the password. Plus 66 retry sequences per repetition on ONE driver object: Open #1 under a configuration that must fail inside Transport.Open (strict + no / missing / half-written known-hosts " +
+			"cell the bytes arriving on the session's stdin must not contain the password. Plus 8 concurrent cells per repetition (a legitimate connection A stays open while attempts B to the same server and user with another key / empty known-hosts / a wrong password must be " +
+			"refused and a legitimate B must connect with its OWN new connection and login at the server), and 20 host-key rotation sequences (three opens of one transport object resp. fresh objects with the server's " +
+			"host key rotated in between: checking off must always connect, strict connects exactly when the file holds the current key). Plus 66 retry sequences per repetition on ONE driver object: Open #1 under a configuration that must fail inside Transport.Open (strict + no / missing / half-written known-hosts " +
 			"file; missing / half-written / unauthorised key file), optional Transport.Close, optional repair, Open #2 judged as a fresh object would be under the files at that moment (server accepts key and " +
 			"password, so a silent fallback to the password is visible). Plus 32 sequences per repetition in which ONE known-hosts path changes its contents between three consecutive strict opens in one process " +
 			"(has>other>has, has>empty>has, empty>has>empty, other>has>other; both transports; fresh Transport object per open and one re-used object; transport level, key auth): " +
@@ -1280,6 +1318,12 @@ func init() {
 			}
 			if c.Kind == "retry" {
 				return runRetry(c)
+			}
+			if c.Kind == "concurrent" {
+				return runConcurrent(c)
+			}
+			if c.Kind == "rotate" {
+				return runRotate(c)
 			}
 			if c.Kind == "argv" {
 				return runArgv(c)
